@@ -561,6 +561,24 @@ def resolvline_jobs(tier):
     return J
 
 
+def envinit_jobs(tier):
+    J = []
+    vals = [("plain", "a.b"), ("two", "a b"), ("seps", " , "), ("tab", "a\\tb"), ("hibyte", "\\200bc"), ("comma", ",a")]
+    for pre in (0, 1):
+        for nm, val in vals:
+            for resopt in ((0,) if tier == "quick" and nm not in ("plain", "tab") else (0, 1)):
+                u = {"ares_buf_split.0": 6, "ares_buf_split.1": 6, "ares_buf_split.2": 6, "ares_strsplit.0": 6,
+                     "ares_buf_split_str_array.0": 4, "ares_free_array.0": 4, "ares_free_array.1": 4, "ares_strsplit_free.0": 4,
+                     "config_search.0": 6, "config_search.1": 6, "memchr.0": 6, "memcpy.0": 24, "strtoul.0": 4, "strtoul.1": 4}
+                J.append(dict(name="c15_envinit_%s_pre%d_opt%d" % (nm, pre, resopt), harness="envinit.c",
+                              defines=['-DVAL="%s"' % val, "-DPRE=%d" % pre, "-DRESOPT=%d" % resopt], real=RL_LIB, support=SUP + ["pton_stub.c"],
+                              unwind=16, unwindset=us(u), leak=True, native=False, mem_gb=6,
+                              witnesses=["end", "no LOCALDOMAIN"],
+                              bound="ONE ares_init_by_environment: LOCALDOMAIN absent or '%s', RES_OPTIONS %s, from %s sysconfig; getenv = stub"
+                                    % (val, "'ndots:2'" if resopt else "absent", ("a fresh", "a populated (search a.b)")[pre])))
+    return J
+
+
 def hostaliases_jobs(tier):
     J = []
     shapes = [("F%d" % l, "", l, "ab") for l in ((6,) if tier == "quick" else (6, 7))]
@@ -595,6 +613,7 @@ def jobs(tier, seed):
     J += sysconf_jobs(tier)
     J += hosts_jobs(tier)
     J += resolvline_jobs(tier)
+    J += envinit_jobs(tier)
     J += hostaliases_jobs(tier)
     if tier == "quick":
         for job in J:   # measured unloaded: every quick job <= 130 s; the machine is shared, leave head room
